@@ -169,6 +169,7 @@ func newGSUB(table tables.Layout) (GSUB, error) {
 				if err != nil {
 					return GSUB{}, err
 				}
+				subtable = subtables[j] // sanitize the actual lookup
 			}
 
 			// sanitize each lookup
@@ -224,6 +225,7 @@ func newGPOS(table tables.Layout) (GPOS, error) {
 				if err != nil {
 					return GPOS{}, err
 				}
+				subtable = subtables[j] // sanitize the actual lookup
 			}
 
 			// sanitize each lookup
